@@ -418,7 +418,7 @@ def materialise(plan, root, fragment=None, twin=False):
 
 
 ENTRIES = ["abs-path", "rel-path", "rel-dot", "rel-updown", "url", "url1",
-           "file-abs", "file-rel"]
+           "url-host", "file-abs", "file-rel"]
 
 
 def _enter(entry, full, loader_url, loader_file, preread=0):
@@ -444,6 +444,9 @@ def _enter(entry, full, loader_url, loader_file, preread=0):
         return loader_url("file://" + pathname2url(full))
     if entry == "url1":
         return loader_url("file:" + pathname2url(full))
+    if entry == "url-host":
+        # the host of a file: URL spelled out: this machine
+        return loader_url("file://localhost" + pathname2url(full))
     name = full if entry == "file-abs" else os.path.relpath(full)
     with open(name, encoding="utf-8") as f:
         return loader_file(f)
@@ -902,8 +905,36 @@ def _has_ref(plan, fc):
 # ---------------------------------------------------------------------------
 # adjunct: url helper invariants over all short strings
 
-ALPHABET = ["a", "C", ":", "/", "\\", "#", ".", "file:", "FILE:", "fiLe:", "e"]
+ALPHABET = ["a", "C", ":", "/", "\\", "#", ".", "file:", "FILE:", "fiLe:",
+            "localhost"]
 _SCHEME = re.compile(r"[A-Za-z][A-Za-z0-9+.\-]*:")
+
+
+def _file_ident(u):
+    """Which local file a file: URL names: (host, path), the host 'localhost'
+    being the empty host; None for other URLs."""
+    try:
+        sp = urllib.parse.urlsplit(u)
+    except ValueError:
+        return None
+    if sp.scheme.lower() != "file":
+        return None
+    host = sp.netloc.lower()
+    return ("" if host == "localhost" else host, sp.path)
+
+
+def _bad_file_form(s, u):
+    """*u* is what a helper made of *s*: a file URL of this machine (no
+    host, or localhost) has the file:/// form afterwards, and any file URL
+    still names the same host and path."""
+    a, b = _file_ident(s), _file_ident(u)
+    if a is None or not s.lower().startswith("file:/"):
+        return False
+    if b != a:
+        return True
+    # (a URL without any path names no file: nothing to normalise)
+    return a[0] == "" and a[1] != "" \
+        and not u.lower().startswith("file:///")
 
 
 def url_helpers(plan, out):
@@ -924,8 +955,7 @@ def url_helpers(plan, out):
             u = ZConfig.url.urlnormalize(s)
             if ZConfig.url.urlnormalize(u) != u:
                 flag("urlnormalize-idempotent", s, u)
-            if u.lower().startswith("file:/") and not \
-                    u.lower().startswith("file:///"):
+            if _bad_file_form(s, u):
                 flag("urlnormalize-file-form", s, u)
             try:
                 d, frag = ZConfig.url.urldefrag(s)
@@ -934,8 +964,7 @@ def url_helpers(plan, out):
             if d is not None:
                 if "#" in d:
                     flag("urldefrag-leaves-hash", s, d)
-                if d.lower().startswith("file:/") and not \
-                        d.lower().startswith("file:///"):
+                if _bad_file_form(urllib.parse.urldefrag(s)[0], d):
                     flag("urldefrag-file-form", s, d)
             m = _SCHEME.match(s)
             want_path = not (m and len(m.group(0)) > 2)
@@ -949,9 +978,16 @@ def url_helpers(plan, out):
                 j = ZConfig.url.urljoin("file:///d/top.conf", s)
             except ValueError:
                 j = None
-            if j is not None and j.startswith("file:/") and not \
-                    j.startswith("file:///"):
+            if j is not None and _bad_file_form(
+                    urllib.parse.urljoin("file:///d/top.conf", s), j):
                 flag("urljoin-file-form", s, j)
+            try:
+                j2 = ZConfig.url.urljoin("file://localhost/d/top.conf", s)
+                r2 = urllib.parse.urljoin("file://localhost/d/top.conf", s)
+            except ValueError:
+                j2 = None
+            if j2 is not None and _bad_file_form(r2, j2):
+                flag("urljoin-file-form", s, j2)
             if m or "#" in s or s.startswith("/"):
                 distinct.add(s)
     out["evaluations"] = n
